@@ -12,8 +12,8 @@ argument."
 Part A (this section): one theorem per sentence, about the mirror of the corresponding `_process_*` function of
 `device.c` (`Pm/Dev2.lean`), for every device state, action, context, oracle and time.
 Part B (further down): the stack of execution contexts refines a loop-free reference program — micro-step, run, and
-one whole pass of `_process_action` (`C08_refines_partial`: nesting depth ≤ 64, the limit of the mirror's inner loop,
-see `C08_refines_counterexample`).  Part C: what is sent until the action completes is the unrolled script's send
+one whole pass of `_process_action` (`C08_refines`; any nesting depth — the mirror's inner loop gets its fuel from the
+nesting depth of the block the action stands in, `loopBound`, and never uses it up).  Part C: what is sent until the action completes is the unrolled script's send
 texts in order. -/
 namespace Pm.Props.C08
 open Pm.Dev2.Interp
@@ -391,8 +391,7 @@ theorem C08_micro_step (R : Bool) (dp : List Plug) (now : Time) (d : Dev) (a : A
   have hf := mstep_frame now d a o
   exact ⟨h1, fun h => ⟨by rw [hf.2.2.2.1]; exact hinv.ranged, by rw [hf.1]; exact hinv.plugs, (h2 h).1, (h2 h).2⟩⟩
 
-/-- **Runs.**  Any number of micro-steps from a well-formed configuration — any script (blocks non-empty, nested at most
-    64 deep), plug list, argument list, device input, oracle answers, time, any point at which earlier passes left the
+/-- **Runs.**  Any number of micro-steps from a well-formed configuration — any script (blocks non-empty), plug list, argument list, device input, oracle answers, time, any point at which earlier passes left the
     action — is a run of at most as many steps of the loop-free reference on the program the stack denotes: same device
     state, same oracle consumption, same output records in the same order, same outcome; and where it stops without
     failing, the stack again denotes what the reference has left, and is well-formed. -/
@@ -413,27 +412,25 @@ theorem C08_pass_is_run (R : Bool) (dp : List Plug) (fuel : Nat) (c : CS) (a : A
       headResult rest c tmo (timeLeft c a) fuel' (mrun c.env.now N c.dev a o out) :=
   pass_is_run R dp fuel c a rest o out tmo h hacts
 
-/- Full statement of the refinement (what one would like): as `C08_refines_partial` below for EVERY script, i.e. with
-   `Inv` replaced by an invariant that does not bound the nesting depth and does not ask for non-empty blocks.
-   That statement is false of the mirror: `C08_refines_counterexample`.  Extra hypotheses in what is proved, all inside
-   `Inv R dp c.dev a0` (= `StackOK`):
-   * `goodBlock`: every block of every context has non-empty nested blocks — the grammar of device files
+/- Hypotheses of `C08_refines`, all inside `Inv R dp c.dev a0` (= `StackOK`, `errnum = success`):
+   * `neBlock`: every block of every context has non-empty nested blocks.  Still needed: the grammar of device files
      (`stmt_block : '{' stmt_list '}'` with `stmt_list` non-empty) guarantees it; with an empty block the C code
-     dereferences `e->cur == NULL` and the mirror reports `abortAssert "cur == NULL"` —
-     and is nested at most 64 deep: the mirror's `innerLoop … 64` follows at most 64 pushes in a row (the C loop
-     `do … while (e != list_peek(act->exec))` has no bound);
+     dereferences `e->cur == NULL` and the mirror reports `abortAssert "cur == NULL"`, which no flat program does.
    * the flags of the contexts are consistent (`CtxOK`, `ParentOK`) and `errnum = success`: true of every fresh action
-     (`C08_initial`), kept by every step (`C08_micro_step`), restored by `_rewind_action` (`C08_rewind`). -/
+     (`C08_initial`), kept by every step (`C08_micro_step`), restored by `_rewind_action` (`C08_rewind`).
+   There is no hypothesis on the nesting depth any more: `onRun` runs `innerLoop` with `loopBound a` =
+   `depthB (topCtx a).block + 1` iterations of fuel, and the `do … while` pushes at most `depthB` contexts in a row
+   (`innerLoop_trip`, `topDepth_le` in `Pm/InterpPass.lean`), as the unbounded C loop does. -/
 
-/-- **C08, refinement (partial: nesting depth ≤ 64, non-empty blocks).**  One pass of `_process_action` over a queue
+/-- **C08, refinement.**  One pass of `_process_action` over a queue
     whose head `a0` is to be run — pass not aborted, device connected, action within its time-out — and is well-formed:
     the mirror's result is what `headResult` makes of a run of the *loop-free reference* on the flat program the
     action's stack denotes: same device state, same oracle consumption, same output records (bytes sent, telemetry,
     diagnostics) in the same order, same outcome; `a'` is the action as it goes back into the queue: its fields are the
     reference's, and unless it failed its stack denotes what the reference has left of the program and is well-formed,
-    so that the next pass is again covered.  All statement kinds, any nesting up to 64, any plug list, argument list,
-    device input, oracle answers and time. -/
-theorem C08_refines_partial (R : Bool) (dp : List Plug) (fuel : Nat) (c : CS) (a0 : Action) (rest : List Action)
+    so that the next pass is again covered.  All statement kinds, any nesting depth, any plug list, argument list,
+    device input, oracle answers and time; blocks non-empty (as the grammar of device files guarantees). -/
+theorem C08_refines (R : Bool) (dp : List Plug) (fuel : Nat) (c : CS) (a0 : Action) (rest : List Action)
     (o : Oracle) (out : List Out) (tmo : Option Time)
     (hnab : c.aborted = false) (hacts : c.dev.acts = a0 :: rest) (hconn : c.dev.conn = 2)
     (hin : c.env.now < (stamp c.env.now a0).timeStamp.getD c.env.now + c.dev.timeout)
@@ -456,12 +453,12 @@ example : ∃ k fuel' a',
     fr.info = info a' ∧ a'.com = 1 ∧
     (fr.status = .stalled ∨ fr.status = .done ∨ fr.status = .running →
       fr.f = abs false (exCS exScript).dev.plugs a'.exec ∧ Inv false (exCS exScript).dev.plugs fr.dev a') :=
-  C08_refines_partial false (exCS exScript).dev.plugs 99 (exCS exScript) (exAction exScript none) [] ⟨[]⟩ [] none
+  C08_refines false (exCS exScript).dev.plugs 99 (exCS exScript) (exAction exScript none) [] ⟨[]⟩ [] none
     rfl rfl rfl (by decide) (exInv exScript exScript_good []) (by decide)
 
-/-- **A fresh action is well-formed** and denotes the unrolling of its whole script (non-empty blocks, depth ≤ 64). -/
+/-- **A fresh action is well-formed** and denotes the unrolling of its whole script (non-empty blocks, any nesting depth). -/
 theorem C08_initial (R : Bool) (dp : List Plug) (script : List Stmt) (plugs : Option (List Plug))
-    (hne : script ≠ []) (hnb : goodBlock script = true) :
+    (hne : script ≠ []) (hnb : neBlock script = true) :
     StackOK R [bodyCtx script plugs] ∧ abs R dp [bodyCtx script plugs] = ⟨unroll R dp script plugs, false⟩ :=
   initial_ok R dp script plugs hne hnb
 
@@ -473,17 +470,21 @@ theorem C08_rewind (R : Bool) (dp : List Plug) (a : Action) (h : StackOK R a.exe
       (rewind a).errnum = a.errnum ∧ (rewind a).com = a.com :=
   rewind_ok R dp a h hne
 
-/-- **Counterexample to the unrestricted statement** (a limit of the mirror, not of `device.c`): for the script
-    `send "x"; send "y"` wrapped in 65 nested `foreachplug`, on a device with one mapped plug, one pass of the mirror
-    sends `y` and never `x` — its inner loop stops after 64 pushes and the following `advance` steps over the first
-    statement of the innermost body — whereas the reference (and the C loop, which has no bound) sends `x` first.
-    With 64 levels the mirror sends `x`. -/
-theorem C08_refines_counterexample :
-    sents (processActionF 200 (exCS (exNest 65)) ⟨[]⟩ [] none).2.2.1 = [[121]] ∧
+/-- regression (formerly `C08_refines_counterexample`: the mirror's inner loop stopped after 64 pushes, and the
+    following `advance` stepped over the first statement of the innermost body, so that `y` was sent and never `x`):
+    for the script `send "x"; send "y"` wrapped in 65 — or 200 — nested `foreachplug`, on a device with one mapped plug,
+    one pass of the mirror now sends `x`, exactly as the reference does; and nothing changed at 64 levels -/
+example :
+    sents (processActionF 200 (exCS (exNest 65)) ⟨[]⟩ [] none).2.2.1 = [[120]] ∧
     sents (frun 5 200 (exDev (exNest 65) []) (info (exAction (exNest 65) none)) ⟨[]⟩
       (abs false (exDev (exNest 65) []).plugs [bodyCtx (exNest 65) none]) []).out = [[120]] ∧
+    sents (processActionF 400 (exCS (exNest 200)) ⟨[]⟩ [] none).2.2.1 = [[120]] ∧
     sents (processActionF 200 (exCS (exNest 64)) ⟨[]⟩ [] none).2.2.1 = [[120]] :=
-  ⟨depth65_mirror, depth65_reference, depth64_mirror⟩
+  ⟨depth65_mirror, depth65_reference, depth200_mirror, depth64_mirror⟩
+
+/-- the refinement theorem applies to the 65-deep script: its fresh action is well-formed -/
+example : Inv false (exDev (exNest 65) []).plugs (exDev (exNest 65) []) (exAction (exNest 65) none) :=
+  exInv (exNest 65) (by decide +kernel) []
 
 /-! ## C  what is sent is the script -/
 
